@@ -126,6 +126,13 @@ def _stmt_features(stmts):
                      "Raise", "Try", "For", "While", "If", "AugAssign", "With", "NamedExpr", "Lambda", "ListComp",
                      "GeneratorExp", "AnnAssign", "Import", "ImportFrom", "Delete", "Assert"):
                 inner.add(t)
+    # a simple statement, or the header of a compound one, written on several physical lines
+    for s in stmts:
+        for n in ast.walk(s):
+            if isinstance(n, ast.stmt):
+                last = n.end_lineno if not hasattr(n, "body") else (n.body[0].lineno - 1 if n.body else n.lineno)
+                if last > n.lineno:
+                    inner.add("MULTILINE")
     return "+".join(sorted(inner)) or "simple"
 
 
@@ -179,7 +186,17 @@ def host_info(src, reg):
             unannotated = True
             break
     region_text = src[reg["start"]:reg["end"]]
-    return {"walrus": any(isinstance(n, ast.NamedExpr) for n in scope_nodes),
+    # a comprehension in the region whose first iterable reads a name that the comprehension also binds
+    comp_self = False
+    for n in scope_nodes:
+        if isinstance(n, (ast.ListComp, ast.SetComp, ast.DictComp, ast.GeneratorExp)):
+            ns, ne = pos.span(n)
+            if ne <= reg["start"] or ns >= reg["end"]:
+                continue
+            bound = {t.id for g in n.generators for t in ast.walk(g.target) if isinstance(t, ast.Name)}
+            if bound & {t.id for t in ast.walk(n.generators[0].iter) if isinstance(t, ast.Name)}:
+                comp_self = True
+    return {"comp_self": comp_self, "walrus": any(isinstance(n, ast.NamedExpr) for n in scope_nodes),
             "annassign": any(isinstance(n, ast.AnnAssign) for n in scope_nodes),
             "unannotated": unannotated, "super_in_region": "super" in region_text,
             "host_decl": any(isinstance(n, (ast.Global, ast.Nonlocal)) for n in scope_nodes)}
@@ -226,6 +243,10 @@ def hostile_labels(reg, kind, host, opts):
         labels.append("definition-header")
     if ".targets" in ctx or ".target" in ctx:
         labels.append("assignment-target")
+    if "MULTILINE" in feat and reg["cls"] == "stmts":
+        labels.append("statement-region-with-a-statement-on-several-lines")
+    if reg["cls"] == "expr" and reg.get("multiline"):
+        labels.append("expression-region-on-several-lines")
     if feat & {"Global", "Nonlocal"}:
         labels.append("region-has-scope-declaration")
     if host.get("host_decl"):
@@ -234,6 +255,8 @@ def hostile_labels(reg, kind, host, opts):
         labels.append("region-defines-function")
     if host.get("super_in_region"):
         labels.append("region-calls-super")
+    if host.get("comp_self"):
+        labels.append("comprehension-iterates-over-a-name-it-also-binds")
     return labels[:1]
 
 
@@ -258,7 +281,8 @@ def enumerate_regions(src, rnd, limit):
                 continue
             s, e = pos.span(node)
             exprs.append({"cls": "expr", "start": s, "end": e, "scope": _scope_kind(node), "feat": type(node).__name__,
-                          "ctx": _expr_context(node), "loop": _in_loop(node), "elif": _in_elif_test(node, src, pos)})
+                          "ctx": _expr_context(node), "loop": _in_loop(node), "elif": _in_elif_test(node, src, pos),
+                          "multiline": "\n" in src[s:e]})
     rnd.shuffle(regions)
     rnd.shuffle(exprs)
     picked = regions[: limit // 2] + exprs[: limit - limit // 2]
@@ -339,6 +363,16 @@ def run_case(spec):
         res.ev("projects")
         paths = [p for p in case.files if p.endswith(".py") and p != "import_all.py" and case.files[p].strip()]
         rnd.shuffle(paths)
+        if spec["pseed"] % 2:
+            # every second project: line breaks (with arbitrary indentation) inside brackets, so that regions
+            # start on continuation lines of comprehensions, calls and conditions
+            from vlib import layoutfuzz, pyrun
+            for p_ in paths[:3]:
+                m = layoutfuzz.break_in_brackets(case.files[p_], rnd, 6, indents=(" " * 16, " " * 20, " " * 24))
+                if m:
+                    case.files[p_] = m.replace("\t", "    ")
+                    res.ev("modules_relaid_out")
+            case.restore()
         for path in paths[:3]:
             src = case.files[path]
             try:
